@@ -9,7 +9,8 @@ import numpy as np
 
 from common import R, fl, relclose
 
-LEAN_MODULES = ["PyomaVerif.Props.C14", "PyomaVerif.Mutants.C14", "PyomaVerif.Props.C03Split"]
+LEAN_MODULES = ["PyomaVerif.Props.C14", "PyomaVerif.Mutants.C14", "PyomaVerif.Props.C03Split", "PyomaVerif.Props.C14Algs",
+                "PyomaVerif.Mutants.C14Algs"]
 THEOREMS = [
     "PV.C14.C14_invariant_single",
     "PV.C14.C14_invariant_multi",
@@ -41,6 +42,20 @@ THEOREMS = [
     "PV.C14.C14_decimate_q_multi",
     "PV.C14.C14_decimate_q0_single",
     "PV.C14.C14_decimate_bad_q_noop",
+    # add_algorithms by NAME (Model/PrepAlgs.lean): the dict name -> object, several objects per call, what every object holds
+    "PV.C14.C14_named_base_single",
+    "PV.C14.C14_named_base_multi",
+    "PV.C14.C14_alg_holds_single",
+    "PV.C14.C14_alg_holds_multi",
+    "PV.C14.C14_alg_never_added",
+    "PV.C14.C14_algorithms_dict_single",
+    "PV.C14.C14_algorithms_dict_multi",
+    "PV.C14.C14_algorithms_rollback_single",
+    "PV.C14.C14_algorithms_rollback_multi",
+    "PV.C14.Mutants.named_current_ok",
+    "PV.C14.Mutants.rebindAll_breaks_alg_holds",
+    "PV.C14.Mutants.setdefault_breaks_dict",
+    "PV.C14.Mutants.runWith_real",
     "PV.C14.Mutants.pinned_single_duration",
     "PV.C14.Mutants.helperTM_multi_duration",
     "PV.C14.Mutants.staleDt_multi_dt",
@@ -61,7 +76,15 @@ RULE = (
     "arrays vs the object's arrays (1e-10 of the data scale; measured <= 1e-13). oracle: same enumeration, expectation "
     "from the statement (scipy applied in sequence to copies of the constructor arrays, fs divided by every factor) and "
     "byte-hash monitors of the user's arrays and of the stored initial copy around every call. distinct = distinct "
-    "(class, layout, operation-label prefix)"
+    "(class, layout, operation-label prefix). spec stream (every sequence above, after every call): the Lean SPEC fold "
+    "(prep_spec: specStep terms, fs, Op.accepted, activeQs) against the real object directly - terms evaluated with scipy "
+    "vs data/datasets and the split by ref_ind, accepted vs whether the real call raised, activeQs vs the factors of the "
+    "decimations the real object accepted, fs vs fs0/their product; plus an exhaustively enumerated alphabet (length 3 / 4) "
+    "in which most calls are ones scipy must reject, several only in some states (breakpoint equal to / one beyond the "
+    "length after the alphabet's decimation, cut-off legal for fs0 but not fs0/q, unknown keyword, bad ftype/type, wrong Wn "
+    "arity, q = 0, q = 1 FIR/IIR). named stream: 5 algorithm objects over 3 names added 1-3 per call at different times "
+    "(same object again, new object under a present name) on real objects vs prep_*_named: after every call what EVERY "
+    "object holds (data/fs/dt or nothing) and self.algorithms (order, which object under which name)"
 )
 EXTRA_TRUSTED = [
     "scipy.signal.decimate / detrend / butter / sosfiltfilt are uninterpreted constructors of the model's terms; only their "
@@ -605,6 +628,121 @@ def spec_compare(ctx, cfg, obj, te, sp, op, outcome, py_qs):
     return bad, py_qs
 
 
+# ----------------------------------------------------------------------------- add_algorithms by name
+def gen_named_sequence(ctx, cfg):
+    """preprocessing calls interleaved with add_algorithms(*algs) over a pool of 5 algorithm objects carrying 3 names:
+    several objects per call, the same object re-added later, a NEW object under a name already present"""
+    rng = ctx.rng
+    alpha = [o for o in gen_alphabet(ctx, cfg, 30) if o["k"] != "add"]
+    pool = [[oid, rng.randrange(3)] for oid in range(5)]
+    for _ in range(50):
+        L = rng.randint(5, 8)
+        seq = []
+        for _i in range(L):
+            if rng.random() < 0.45:
+                seq.append({"k": "add", "algs": [list(rng.choice(pool)) for _ in range(rng.choice([1, 1, 2, 3]))]})
+            else:
+                seq.append(rng.choice(alpha))
+        adds = [i for i, o in enumerate(seq) if o["k"] == "add"]
+        # at least two additions with an accepted data-changing call in between
+        if len(adds) >= 2 and any(o["k"] in ("decimate", "detrend", "filter") for o in seq[adds[0] : adds[-1]]):
+            if seq_min_len(cfg, seq) >= MINLEN and tie_free(cfg, seq):
+                return seq, pool
+    return None, pool
+
+
+def corr_named(ctx, cfg, seq, pool):
+    """real setup with named algorithm objects vs `prep_*_named`: after EVERY call, for EVERY object of the pool what it
+    holds (data = the model's term evaluated with scipy, fs, dt - or nothing), and `self.algorithms` (names in dict order,
+    and WHICH object sits under each name)"""
+    _, _, FDD, FDD_MS = _classes()
+    single = cfg.cls == "single"
+    te = TermEval(cfg.arrays)
+    mops = [o if o["k"] == "add" else op_to_model(o) for o in seq]
+    recs = ctx.model("prep_single_named" if single else "prep_multi_named", ops=mops, variant=VARIANT, **cfg.model_args())
+    obj = cfg.make()
+    algobjs = {oid: (FDD if single else FDD_MS)(name=f"n{name}") for oid, name in pool}
+    oid_of = {id(a): oid for oid, a in algobjs.items()}
+    fnp = "SingleSetup." if single else "MultiSetup_PreGER."
+    labels = []
+    for step in range(len(seq) + 1):
+        fn = "__init__"
+        outcome = "ok"
+        if step:
+            op = seq[step - 1]
+            if op["k"] == "add":
+                fn = "add_algorithms"
+                labels.append("add" + "".join(f"{o}n{n}" for o, n in op["algs"]))
+                obj.add_algorithms(*[algobjs[o] for o, _ in op["algs"]])
+                ctx.count(f"named_add_{len(op['algs'])}algs")
+            else:
+                fn = {"decimate": "decimate_data", "detrend": "detrend_data", "filter": "filter_data", "rollback": "rollback"}[op["k"]]
+                labels.append(op_label(op))
+                outcome, _ = apply_real(obj, cfg, op, step)
+        m = recs[step]
+        bad = []
+        if outcome != m["base"]["outcome"]:
+            bad.append(("outcome", outcome, m["base"]["outcome"]))
+        if not relclose(float(obj.fs), fl(m["base"]["fs"])):
+            bad.append(("fs", float(obj.fs), m["base"]["fs"]))
+        real_dict = [[int(name[1:]), oid_of.get(id(a), -1)] for name, a in obj.algorithms.items()]
+        if real_dict != m["algorithms"]:
+            bad.append(("algorithms", real_dict, m["algorithms"]))
+        held = {o: b for o, b in m["held"]}
+        for oid, a in algobjs.items():
+            data = getattr(a, "data", None)
+            if oid not in held:
+                if data is not None:
+                    bad.append((f"alg{oid}.data", "bound", None))
+                continue
+            ctx.count("named_held_compared")
+            b = held[oid]
+            if data is None:
+                bad.append((f"alg{oid}.data", None, "bound"))
+                continue
+            if single:
+                pairs = [(f"alg{oid}.data", data, te.ev(b["data"]))]
+            else:
+                pairs = []
+                if len(data) != len(b["data"]):
+                    bad.append((f"alg{oid}.nsetup", len(data), len(b["data"])))
+                else:
+                    for i, sp in enumerate(b["data"]):
+                        r, mv = split_eval(te, sp)
+                        pairs.append((f"alg{oid}.data[{i}].ref", data[i]["ref"], r))
+                        pairs.append((f"alg{oid}.data[{i}].mov", data[i]["mov"], mv))
+            for name, real, mod in pairs:
+                ok, d = close(real, mod)
+                if not ok:
+                    bad.append((name, f"rel diff {d:.3e} shape {np.shape(real)}", f"shape {np.shape(mod)}"))
+            if not relclose(float(a.fs), fl(b["fs"])):
+                bad.append((f"alg{oid}.fs", float(a.fs), b["fs"]))
+            if not relclose(float(a.dt), fl(b["dt"])):
+                bad.append((f"alg{oid}.dt", float(a.dt), b["dt"]))
+        ctx.corr(
+            fnp + fn + "[named]",
+            not bad,
+            {"cfg": cfg.describe(), "pool": pool, "ops": seq[:step]},
+            [(x[0], x[2]) for x in bad],
+            [(x[0], x[1]) for x in bad],
+            (cfg.cls, cfg.layout, tuple(labels)),
+        )
+        if bad:
+            break
+
+
+def correspondence_named(ctx):
+    for cls in ("single", "preger"):
+        for _ in range(ctx.n(8, 60)):
+            cfg = gen_cfg(ctx, cls, 1200, 2500)
+            seq, pool = gen_named_sequence(ctx, cfg)
+            if seq is None:
+                ctx.skipped += 1
+                continue
+            corr_named(ctx, cfg, seq, pool)
+            ctx.count("corr_sequences_named")
+
+
 def enumerate_sequences(alphabet, L):
     return itertools.product(alphabet, repeat=L)
 
@@ -675,6 +813,7 @@ def correspondence(ctx):
         for a, f in zip(cfg.arrays, frozen):
             if not np.array_equal(a, f):
                 ctx.notes.append("user array changed during correspondence (see oracle monitors)")
+    correspondence_named(ctx)
 
 
 # ----------------------------------------------------------------------------- oracle (from the statement)
